@@ -367,6 +367,12 @@ func runWriter(conn net.Conn, key uint64, prog DirProg, dr *DirResult, bump func
 		p := buf[:w]
 		PRFFill(key, off, p)
 		n, err := conn.Write(p)
+		// net.Conn: Write must not retain p. The caller re-uses its buffer at
+		// once (as io.Copy does), so anything the implementation still reads
+		// from it later shows up as wrong bytes.
+		for i := range p {
+			p[i] = 0xA5
+		}
 		if n > 0 {
 			off += int64(n)
 			dr.Written = off
